@@ -12,6 +12,7 @@ import (
 	"fmt"
 	"math"
 	"os"
+	"sync"
 )
 
 // Control-flow signals used by the native implementation.
@@ -110,7 +111,9 @@ func Assert(c bool, msg string) {
 
 func Fail(msg string) { panic(Violation{msg}) }
 
-func Cover(label string) { Covers[label]++ }
+var apiMu sync.Mutex // native only: Cover/Observe may be called from free-running threads
+
+func Cover(label string) { apiMu.Lock(); Covers[label]++; apiMu.Unlock() }
 
 // MapOrder asks the engine to treat the iteration order of every Go map
 // ranged over from now on as solver-chosen. Natively it has no effect (the
@@ -133,11 +136,11 @@ func Try(f func()) (panicked bool, msg string) {
 	return false, ""
 }
 
-func ObserveString(label, s string) { Observed = append(Observed, fmt.Sprintf("%s=%q", label, s)) }
-func ObserveInt(label string, v int64) {
-	Observed = append(Observed, fmt.Sprintf("%s=%d", label, v))
-}
-func ObserveBool(label string, v bool) { Observed = append(Observed, fmt.Sprintf("%s=%v", label, v)) }
+func observe(s string) { apiMu.Lock(); Observed = append(Observed, s); apiMu.Unlock() }
+
+func ObserveString(label, s string)    { observe(fmt.Sprintf("%s=%q", label, s)) }
+func ObserveInt(label string, v int64) { observe(fmt.Sprintf("%s=%d", label, v)) }
+func ObserveBool(label string, v bool) { observe(fmt.Sprintf("%s=%v", label, v)) }
 
 // ---------------------------------------------------------------------------
 // Cooperative threads with a solver-chosen schedule.
@@ -172,6 +175,41 @@ var (
 	// Switches counts the context switches of the last RunThreads.
 	Switches int
 )
+
+// ---------------------------------------------------------------------------
+// Data-race detection (C17).
+//
+// RaceDetect(true) makes the engine check every memory access of the threads
+// of the following RunThreads calls for happens-before races (vector clocks;
+// engine/interp/race.go). HBRelease / HBAcquire are how the instrumented sync
+// primitives (zzsync) tell it about synchronisation; hbSwitch tells it which
+// logical thread runs. Natively all four do nothing: a race the engine
+// reports is confirmed by running the same harness with VERIF_FREE=1 under
+// the Go race detector, where RunThreads starts the threads as ordinary
+// goroutines (no baton, which would order everything) and zzsync falls
+// through to the real sync package.
+
+func RaceDetect(on bool)        {}
+func HBRelease(obj interface{}) {}
+func HBAcquire(obj interface{}) {}
+func hbSwitch(id int)           {}
+
+var free = os.Getenv("VERIF_FREE") == "1"
+
+// Free reports whether threads run freely (native race-detector replay).
+func Free() bool { return free }
+
+func runFree(ts []*thread) {
+	var wg sync.WaitGroup
+	for _, t := range ts {
+		wg.Add(1)
+		go func(t *thread) {
+			defer wg.Done()
+			t.f()
+		}(t)
+	}
+	wg.Wait()
+}
 
 // Go registers f as a thread of the next RunThreads call.
 func Go(f func()) {
@@ -232,6 +270,10 @@ func threadMain(t *thread) {
 func RunThreads(bound int) {
 	ts := threads
 	threads = nil
+	if Free() {
+		runFree(ts)
+		return
+	}
 	back = make(chan struct{})
 	Switches = 0
 	var cur *thread
@@ -277,6 +319,7 @@ func RunThreads(bound int) {
 		cur = pick
 		pick.cond = nil
 		curThread = pick
+		hbSwitch(pick.id)
 		if !pick.started {
 			pick.started = true
 			go threadMain(pick)
@@ -285,6 +328,7 @@ func RunThreads(bound int) {
 		}
 		<-back
 		curThread = nil
+		hbSwitch(-1)
 		if pick.panicked {
 			panic(pick.panicVal)
 		}
